@@ -246,8 +246,16 @@ package csrf
 //@ func Config.ErrorHandler assumed
 //@   modifies ehCalls, heap
 //@   ensures ehCalls == old(ehCalls) + 1
-// isFromCookie uses reflection (outside the engine's subset): nothing is assumed about its result.
-//@ func isFromCookie assumed pure
+// isFromCookie compares the code pointer of its argument with the code pointer of the FACTORY FromCookie (not with the
+// closure FromCookie returns). The handler passes cfg.Extractor, a func(fiber.Ctx) (string, error): its dynamic type is
+// not FromCookie's signature (checked at the call: requires), and func values of different types never share their
+// code (reflect model, deps/mw_C16.spec) - so the answer is false for EVERY extractor, including FromCookie(name):
+// the double-submit comparison with the CSRF cookie is never skipped. (typeis(x, FromCookie): "the dynamic type of x is
+// the signature of the declared function FromCookie".)
+//@ func isFromCookie
+//@   pure
+//@   requires argument-is-not-of-the-factory-type: extractor != nil && !typeis(extractor, FromCookie)
+//@   ensures never-true-for-an-extractor: !result
 
 //@ macro bypassed() = called(Config.Next) && last(Config.Next)
 //@ macro unsafeMethod(c) = reqMethod(c, epoch) != "GET" && reqMethod(c, epoch) != "HEAD" && reqMethod(c, epoch) != "OPTIONS" && reqMethod(c, epoch) != "TRACE"
@@ -268,6 +276,8 @@ package csrf
 //@ ..   exists(i, 0, len(trustedSubOrigins), sdShape(trustedSubOrigins[i].prefix, trustedSubOrigins[i].suffix) && sdMatch(trustedSubOrigins[i].prefix, trustedSubOrigins[i].suffix, originLc(c)) && originLc(c)[len(originLc(c))-len(trustedSubOrigins[i].suffix)] == '.')
 //@   atcall @fiber.Ctx.Next: unsafe-token-extracted: !bypassed() && unsafeMethod(c) ==> called(Config.Extractor) && exOK && exTok != ""
 //@   atcall @fiber.Ctx.Next: unsafe-token-matches-cookie: !bypassed() && unsafeMethod(c) ==> (called(isFromCookie) && last(isFromCookie)) || exTok == cookieTok(c)
+// ... for every extractor, FromCookie(name) included (isFromCookie never answers true, see its contract)
+//@   atcall @fiber.Ctx.Next: unsafe-token-matches-cookie-whatever-the-extractor: !bypassed() && unsafeMethod(c) ==> exTok == cookieTok(c)
 //@   atcall @fiber.Ctx.Next: unsafe-token-was-live: !bypassed() && unsafeMethod(c) ==> called(getRawFromStorage) && last(getRawFromStorage) != nil && tokLiveAtEntry(c, exTok)
 // -- what is looked up, consumed and issued
 //@   atcall getRawFromStorage: looks-up-presented-token: token == ite(unsafeMethod(c), exTok, cookieTok(c)) && token != ""
